@@ -42,6 +42,7 @@ def spellings(spec):
     yield from literals.valid_floats(maxlen=4, rng=r, sample=3 if spec["tier"] == "quick" else 12)
     yield from literals.valid_chars()
     yield from literals.valid_strings(r, 300 if spec["tier"] == "quick" else 5000)
+    yield from literals.long_constants()
 
 
 def lex(src):
@@ -115,9 +116,10 @@ def run_shard(spec):
         if zlib.crc32(sp.lower().encode()) % n != spec["shard"]:
             continue
         work.append((sp, fam, None))
-    for sp, fam, code in literals.malformed():
-        if zlib.crc32(sp.lower().encode()) % n == spec["shard"]:
-            work.append((sp, fam, code))
+    # the malformed list is small: every worker lexes all of it after (forward pass) and before (backward pass) its
+    # share of the valid constants, so that anything remembered from a valid constant meets every malformed one
+    for sp, fam, code in list(literals.malformed()) + list(literals.long_malformed()):
+        work.append((sp, fam, code))
     # two passes in opposite orders: the classification of a literal must not depend on what was lexed before it
     for order, items in (("forward", work), ("backward", list(reversed(work)))):
         for sp, fam, code in items:
